@@ -17,9 +17,9 @@ TRANSLATE = True
 # Gen/AlgoLMeasure.lean is regenerated on every run from analysis/lmeasure.py (n_stems, n_bifs, n_branch, n_tips, branch_order, terminal_degree,
 # partition_asymmetry, fragmentation), tree.py (Tree.soma, Tree.get_tips, Tree.Node.subtree), swc.py (number_of_edges); it calls the node handles
 # (Gen/AlgoNode), get_furcations / get_branches (Gen/AlgoBranches) and get_subtree_impl (Gen/AlgoSubtree), all over the generated traversal
-TRANSLATE_ALGO = ["AlgoTraverse", "AlgoNode", "AlgoBranches", "AlgoSubtree", "AlgoLMeasure", "AlgoSholl", "AlgoFeatFront"]
+TRANSLATE_ALGO = ["AlgoTraverse", "AlgoNode", "AlgoBranches", "AlgoSubtree", "AlgoLMeasure", "AlgoSholl", "AlgoFeatFront", "AlgoBranchTree", "AlgoNodeFeat"]
 DRIVER_FILES = ["SwcVerif/Model/AlgoRunLMeasure.lean", "SwcVerif/Model/PyMore.lean", "SwcVerif/Model/AlgoRunSholl.lean", "SwcVerif/Model/PySholl.lean",
-                "SwcVerif/Model/PyResample.lean"]
+                "SwcVerif/Model/PyResample.lean", "SwcVerif/Model/AlgoRunNodeFeat.lean", "SwcVerif/Model/PyNodeFeat.lean"]
 LEAN_MODS = ["SwcVerif.Props.C10", "SwcVerif.Proofs.Represent", "SwcVerif.Props.C10Gen", "SwcVerif.Props.C10Sholl"]
 THEOREMS = [
     "C10.length_eq_sum_edges", "C10.chainLength_eq", "C10.length_eq_sum_branches", "C10.branches_eq", "C10.counts", "C10.path_distance_eq_sum",
@@ -1689,7 +1689,167 @@ class Sampled(Suite):
         return len(case["skeleton"]) >= 3
 
 
-SUITES = [Features(), Angles(), Closed(), ShollNear(), Requests(), PopulationRows(), Sampled(), LmTopo()]
+
+# ---- T22 `nodefeat`: the definitions GENERATED from features.py / path.py / node.py / tree.py (Gen/AlgoNodeFeat.lean) against the real functions ----
+_NF_STEPS = [(3, 4, 0), (0, 0, 5), (1, 2, 2), (2, 3, 6), (1, 0, 0), (0, 2, 0), (4, 0, 3), (0, 0, 1), (2, 6, 3), (0, 5, 12)]
+
+
+def nf_tree(rng, n, shape, soma=True):
+    """a tree on the integer lattice whose every EDGE has integer length (3-4-5, 1-2-2, 2-3-6, … steps in any orientation and sign), no two nodes
+    at one place; the other distances (to the root, end to end) are square roots of arbitrary integers"""
+    pids = gen.renumber_root0(rng, gen.parents_sorted(rng, n, shape))
+    n = len(pids)
+    xyz = {0: (rng.randint(-3, 3), rng.randint(-3, 3), rng.randint(-3, 3))}
+    used = {xyz[0]}
+    order = sorted(range(1, n), key=lambda i: 0)       # parents may follow their children: place nodes by walking up
+    def place(i):
+        if i in xyz:
+            return
+        place(pids[i])
+        for _try in range(200):
+            st = list(rng.choice(_NF_STEPS)); rng.shuffle(st)
+            q = tuple(xyz[pids[i]][k] + rng.choice([-1, 1]) * st[k] * (1 + _try // 50) for k in range(3))
+            if q not in used:
+                break
+        used.add(q); xyz[i] = q
+    for i in order:
+        place(i)
+    return {"n": n, "pids": pids, "types": [1 if soma else 3] + [rng.choice([2, 3, 4]) for _ in range(n - 1)],
+            "xyz": [[float(c) for c in xyz[i]] for i in range(n)], "r": [1.0] * n}
+
+
+def _nf_parse(got):
+    return [Fraction(x) for x in got.replace(";", ",").split(",") if x not in ("", "_")]
+
+
+def _nf_close(f, x, scale=None):
+    """`x`: the driver's exact value of a norm-valued quantity (`-q` = the marker for sqrt(q), optionally divided by the exact `scale`)"""
+    if x >= 0:
+        return abs(f - float(x)) <= 2e-5 * max(1.0, abs(float(x)))
+    q = float(-x) * (scale if scale is not None else 1.0)          # x = -q / scale
+    want = math.sqrt(q) / (scale if scale is not None else 1.0)
+    return abs(f - want) <= 2e-5 * max(1.0, want)
+
+
+class NodeFeat(Suite):
+    """the generated `Tree.length`, `Path.length / straight_line_distance / tortuosity`, `Node.distance`, `NodeFeatures`, `FurcationFeatures` /
+    `TipFeatures`, `PathFeatures`, `BranchFeatures` run at Rat on the inputs of the real functions (trees whose edges have integer length in
+    oblique directions; a few without a soma-typed root, where `get_radial_distance` raises)"""
+    name = "c10.nodefeat"
+
+    def cases(self, rng, tier, widen):
+        out = []
+        big = tier == "thorough" or widen
+        k = 0
+        for n in [1, 2, 3, 4, 5, 7, 10, 16] + ([30, 60] if big else []):
+            for _ in range(2 if not big else 4):
+                shape = gen.pick_shape(rng, k); k += 1
+                tr_ = nf_tree(rng, n, shape, soma=bool(k % 6))
+                out.append({"class": shape + ("" if k % 6 else "/no-soma"), "tree": tr_,
+                            "pairs": [(rng.randrange(tr_["n"]), rng.randrange(tr_["n"])) for _ in range(3)]})
+        return out
+
+    def run(self, case):
+        from swcgeom.analysis.features import BranchFeatures, FurcationFeatures, NodeFeatures, PathFeatures, TipFeatures
+
+        t = gen.make_tree(case["tree"])
+        P = case["tree"]["xyz"]
+        res = {}
+        with warnings.catch_warnings():
+            warnings.simplefilter("ignore")
+            nf = NodeFeatures(t)
+            ff, tf, pf, bf = FurcationFeatures(nf), TipFeatures(nf), PathFeatures(t), BranchFeatures(t)
+            res["length"] = float(t.length())
+            for key, fn in (("radial", nf.get_radial_distance), ("fradial", ff.get_radial_distance), ("tradial", tf.get_radial_distance)):
+                try:
+                    res[key] = [float(v) for v in fn()]
+                except ValueError:
+                    res[key] = "E"
+            res["counts"] = [float(nf.get_count()[0]), float(ff.get_count()[0]), float(tf.get_count()[0])]
+            res["plen"] = [float(v) for v in pf.get_length()]; res["blen"] = [float(v) for v in bf.get_length()]
+            res["ptort"] = [float(v) for v in pf.get_tortuosity()]; res["btort"] = [float(v) for v in bf.get_tortuosity()]
+            res["paths"] = [[int(i) for i in p.idx] for p in t.get_paths()]
+            res["branches"] = [[int(i) for i in b.idx] for b in t.get_branches()]
+            order = nf.get_branch_order()
+            bt = nf._branch_tree
+            where = {tuple(q): i for i, q in enumerate(P)}
+            res["border"] = [[where[tuple(float(c) for c in bt.xyz()[i])] for i in range(len(order))], [int(v) for v in order]]
+            res["angle"] = [[float(v) for v in row] for row in bf.get_angle(eps=1e-7)] if res["branches"] else []
+            res["dist"] = [float(t.node(a).distance(t.node(b))) for a, b in case["pairs"]]
+            res["pathq"] = [[float(p.length()), float(p.straight_line_distance()), float(p.tortuosity())] for p in t.get_paths()]
+        return res
+
+    def lines(self, case, res):
+        if "exc" in res:
+            return []
+        t = case["tree"]
+        n = t["n"]
+        P = [[int(c) for c in q] for q in t["xyz"]]
+        a = f"pids={gen.ints(t['pids'])} types={gen.ints(t['types'])} xyz={';'.join(gen.ints(q) for q in P)}"
+        sq = lambda u, w: sum((P[u][k] - P[w][k]) ** 2 for k in range(3))
+        elen = lambda u, w: math.isqrt(sq(u, w))                       # every edge has integer length
+        plen = lambda idx: sum(elen(x, y) for x, y in zip(idx, idx[1:]))
+
+        def vals(want, scales=None):
+            def f(got):
+                xs = _nf_parse(got)
+                return len(xs) == len(want) and all(_nf_close(w, x, None if scales is None else scales[i]) for i, (w, x) in enumerate(zip(want, xs)))
+            return Expect(f, str(want))
+
+        rt, sqm = f"gnodefeat {a} mode=rt", f"gnodefeat {a} mode=sq"
+        rs = lambda l: ",".join(str(v) for v in l) if l else "_"
+        out = [(f"{rt} what=length", vals([res["length"]])),
+               # the squared quantities, recomputed here from the inputs: which vectors the norm is applied to, in which order
+               (f"{sqm} what=length", rs([sum(sq(t["pids"][i], i) for i in range(1, n))])),
+               (f"{rt} what=counts", " ".join(str(int(v)) for v in res["counts"])),
+               (f"{rt} what=plen", vals(res["plen"])), (f"{rt} what=blen", vals(res["blen"])),
+               (f"{sqm} what=plen", rs([sum(sq(x, y) for x, y in zip(p, p[1:])) for p in res["paths"]])),
+               (f"{sqm} what=blen", rs([sum(sq(x, y) for x, y in zip(b, b[1:])) for b in res["branches"]])),
+               (f"{rt} what=ptort", vals(res["ptort"], [plen(p) for p in res["paths"]])),
+               (f"{rt} what=btort", vals(res["btort"], [plen(b) for b in res["branches"]])),
+               (f"{rt} what=border", f"{gen.ints(res['border'][0])} {gen.ints(res['border'][1])}")]
+        for key, sel in (("radial", lambda i: True), ("fradial", lambda i: t["pids"].count(i) > 1), ("tradial", lambda i: t["pids"].count(i) == 0)):
+            if res[key] == "E":
+                out += [(f"{rt} what={key}", "E"), (f"{sqm} what={key}", "E")]
+            else:
+                out += [(f"{rt} what={key}", vals(res[key])), (f"{sqm} what={key}", rs([sq(i, 0) for i in range(n) if sel(i)]))]
+        for (u, w), d in zip(case["pairs"], res["dist"]):
+            out += [(f"{rt} what=dist a={u} b={w}", vals([d])), (f"{sqm} what=dist a={u} b={w}", str(sq(u, w)))]
+        for p, q in zip(res["paths"][:3], res["pathq"]):
+            def pq(got, p=p, q=q):
+                xs = [Fraction(x) for x in got.split(" ")]
+                return len(xs) == 3 and _nf_close(q[0], xs[0]) and _nf_close(q[1], xs[1]) and _nf_close(q[2], xs[2], plen(p))
+            out.append((f"{rt} what=pathq idx={gen.ints(p)}", Expect(pq, str(q))))
+        if res["branches"]:
+            # the angle matrix with norm := the squared norm and acos := the identity, eps exact: recomputed here from the inputs; the real
+            # angles are compared with arccos(clip(dot / (|u||v| + eps))) of the SAME vectors
+            eps = Fraction(1, 10 ** 7)
+            V = [[P[b[-1]][k] - P[b[0]][k] for k in range(3)] for b in res["branches"]]
+            dot = lambda u, w: sum(x * y for x, y in zip(u, w))
+            clip = lambda x: max(Fraction(-1), min(Fraction(1), x))
+            want = ";".join(",".join(str(clip(Fraction(dot(u, w)) / (dot(u, u) * dot(w, w) + eps))) for w in V) for u in V)
+            out.append((f"{sqm} what=angle eps=1/10000000", want))
+        return out
+
+    def oracle(self, case, res):
+        if "exc" in res:
+            return [("features-raise", f"{res['exc']}: {res.get('msg')}")]
+        out = []
+        P = np.array(case["tree"]["xyz"], dtype=np.float64)
+        if res["branches"]:
+            V = [P[b[-1]] - P[b[0]] for b in res["branches"]]
+            for i, u in enumerate(V):
+                for j, w in enumerate(V):
+                    want = math.acos(max(-1.0, min(1.0, float(u @ w) / (float(np.linalg.norm(u)) * float(np.linalg.norm(w)) + 1e-7))))
+                    if abs(res["angle"][i][j] - want) > 2e-3:
+                        out.append(("branch-angle", f"angle between branches {res['branches'][i]} and {res['branches'][j]}: {res['angle'][i][j]}, definition {want}"))
+        return out[:3]
+
+    def nontrivial(self, case, res):
+        return case["tree"]["n"] >= 3
+
+
+SUITES = [NodeFeat(), Features(), Angles(), Closed(), ShollNear(), Requests(), PopulationRows(), Sampled(), LmTopo()]
 TECHNIQUE = ("Lean 4 theorems about the feature models (tree length = Σ edge lengths = Σ branch lengths via C08's edge partition; path length = path distance of its tip; "
              "counts, branch order, terminal degree, Sholl straddle count read off their definitions; partition asymmetry REGENERATED from lmeasure.py; zero-padded "
              "population rows) + differential correspondence (exact on integer-edge lattice trees) + an oracle computing every quantity from its definition in float64")
